@@ -44,6 +44,8 @@ GEOMS = {
         # windows deep inside the block map (index thresholds such as 1024 / 4096 are typical chunk and cache sizes)
         dict(bs=4096, W=3, cut=512, boff=512, doff=None, at=1022),
         dict(bs=512, W=3, cut=0, boff=1024, doff=None, at=4094),
+        dict(bs=4096, W=3, cut=0, boff=512, doff=None, at=16383),
+        dict(bs=1024, W=3, cut=512, boff=512, doff=None, at=65535),
     ],
     "thorough": [
         dict(bs=4096, W=4, cut=512, boff=512, doff=None, at=1021),
